@@ -46,6 +46,7 @@ type schedRun struct {
 	shutAt   int // fs log index when Shutdown returned
 	probes   map[string]int64
 	cold     bool // clients started before the background WAL writer task ran
+	stuckClients int
 }
 
 type schedCfg struct {
@@ -173,7 +174,12 @@ func runSched(w *Workload, c schedCfg, seed uint64) *schedRun {
 			fs.Marker("shutdown-requested")
 			sr.shutErr = n.Shutdown()
 			sr.shutAt = fs.Marker("shutdown-returned")
-			wg.Wait()
+			// requests still in flight are never answered once the process exits:
+			// give them a bounded time, do not wait for them
+			for i := 0; i < 50 && wg.Count() > 0; i++ {
+				simrt.Sleep(100 * time.Millisecond)
+			}
+			sr.stuckClients = wg.Count()
 			sr.finalPre = map[string][]OutRow{}
 			sr.finalErr = map[string]error{}
 			for _, b := range w.Buckets {
@@ -483,6 +489,12 @@ func describeHistory(sr *schedRun) []string {
 		s := fmt.Sprintf("c%d %s [%d,%d]", op.client, op.kind, op.inv, op.ret)
 		if op.kind == "write" {
 			s += " " + (&WOp{Kind: "write", W: op.w}).String()[6:] + fmt.Sprintf(" ok=%v", op.ok)
+			if op.err != nil {
+				s += " err=" + clip2(firstLine(op.err.Error()), 120)
+			}
+			if op.ret == 0 {
+				s += " (never returned)"
+			}
 		} else {
 			s += fmt.Sprintf(" %s -> %d rows", op.key, len(op.rows))
 			if op.err != nil {
